@@ -100,6 +100,13 @@ func (c *Ctx) concat(a, b T) T {
 		return a
 	}
 	c.sc.declareFun("scat", []string{sStr, sStr}, sStr)
+	// operands are named when they are not plain applications: patterns must not contain ite
+	if strings.Contains(a, "(ite ") && !strings.Contains(a, "q.") {
+		a = c.sc.def("cat.l", sStr, a)
+	}
+	if strings.Contains(b, "(ite ") && !strings.Contains(b, "q.") {
+		b = c.sc.def("cat.r", sStr, b)
+	}
 	t := app("scat", a, b)
 	la, lb := app("slen", a), app("slen", b)
 	c.onceFact("cat:"+t, and(
@@ -112,6 +119,9 @@ func (c *Ctx) concat(a, b T) T {
 
 func (c *Ctx) substr(s, lo, hi T) T {
 	c.sc.declareFun("ssub", []string{sStr, sInt, sInt}, sStr)
+	if strings.Contains(s, "(ite ") && !strings.Contains(s, "q.") {
+		s = c.sc.def("sub.s", sStr, s)
+	}
 	t := app("ssub", s, lo, hi)
 	c.onceFact("sub:"+t, imp(and(le("0", lo), le(lo, hi), le(hi, app("slen", s))), and(
 		eq(app("slen", t), sub(hi, lo)),
